@@ -315,6 +315,20 @@ theorem upConcat_sound (I : Interp γ ι) {inner : Bool} {xs : List Expr} {c p o
               intro f _
               rfl
             rw [hfilt, parentOf_cols] at hlab
+            -- the labels the new Concat declares are its labels: no input without columns under join="inner"
+            have hdecl : concatLabels false inner ((vs.map (fun w => w.fr.cols)).map
+                (concatKeepCols false (detProj (parentOf sel) (depsOf d c) []).toList)) =
+                concatCols false inner ((vs.map (fun w => w.fr.cols)).map
+                (concatKeepCols false (detProj (parentOf sel) (depsOf d c) []).toList)) := by
+              cases inner with
+              | false => exact concatLabels_outer _
+              | true =>
+                apply concatLabels_of_nonempty
+                intro f hf
+                obtain ⟨f0, hf0, rfl⟩ := List.mem_map.mp hf
+                obtain ⟨w, hw, rfl⟩ := List.mem_map.mp hf0
+                exact concatKeepCols_ne_nil _ _ (hnonempty rfl w hw)
+            rw [hdecl] at hlab
             rw [parentOf_ndim1] at hnd1
             rw [hnd1]
             congr 2
